@@ -112,7 +112,7 @@ func (u *memoryManagementUnit) fetchCacheLine(addr int32) []int8 {
 }
 
 func (u *memoryManagementUnit) pushLineToL3(addr comp.AlignedAddress, line []int8) {
-	evicted := u.l3.PushLine(addr, line)
+	evicted := u.l3.PushLineWithEvictionWarning(addr, line)
 	for i, pending := range u.pendings {
 		if pending[0] == int32(addr) {
 			if len(u.pendings) == 0 {
@@ -123,10 +123,11 @@ func (u *memoryManagementUnit) pushLineToL3(addr comp.AlignedAddress, line []int
 			break
 		}
 	}
-	if len(evicted) == 0 {
+	if evicted == nil {
 		return
 	}
-	u.writeToMemory(addr, line)
+	u.writeToMemory(evicted.Boundary[0], evicted.Data)
+	u.l3.EvictCacheLine(evicted.Boundary[0])
 }
 
 func (u *memoryManagementUnit) writeToL3(addr int32, data []int8) {
